@@ -1,8 +1,11 @@
 package main
 
 import (
+	"bytes"
 	"encoding/json"
 	"fmt"
+	"net/http"
+	"net/http/httptest"
 	"os"
 	"os/exec"
 	"path/filepath"
@@ -21,6 +24,7 @@ import (
 	"github.com/trustbloc/sidetree-core-go/pkg/batch"
 	"github.com/trustbloc/sidetree-core-go/pkg/dochandler"
 	"github.com/trustbloc/sidetree-core-go/pkg/processor"
+	restdoc "github.com/trustbloc/sidetree-core-go/pkg/restapi/dochandler"
 	"github.com/trustbloc/sidetree-core-go/pkg/versions/1_0/operationparser"
 
 	"verifharness/hx"
@@ -519,6 +523,7 @@ func checkC16(c *hx.Ctx) {
 	c.Floor("batches_version_100", 10)
 	c.Floor("real_handler_runs", 10)
 	c.Floor("document_handler_front_runs", 10)
+	c.Floor("document_handler_front_runs_via_rest", 5)
 	c.Floor("real_handler_runs_with_not_yet_valid_operation", 5)
 	c.Floor("real_handler_batches_read_back", 50)
 }
@@ -1131,6 +1136,11 @@ func handlerFrontSlice(c *hx.Ctx) {
 			return
 		}
 		dh := dochandler.New(hx.Namespace, nil, pc, w, processor.New("verif", hx.NewOpStore(), pc), hx.NopMetrics{})
+		viaREST := run%2 == 1
+		rest := restdoc.NewUpdateHandler(dh, pc, hx.NopMetrics{})
+		if viaREST {
+			c.Count("document_handler_front_runs_via_rest")
+		}
 		ops := map[string]opInfo{}
 		accepted := map[string]bool{}
 		n := 3 + r.Intn(8)
@@ -1150,8 +1160,22 @@ func handlerFrontSlice(c *hx.Ctx) {
 				ver = 100
 			}
 			id := string(cr.Req)
+			var e error
+			if viaREST {
+				// through the REST front end (it names the current version by its genesis time); the request bytes handed to
+				// the queue must stay what the client sent, whatever later requests do to buffers
+				if twoVers {
+					ver = 100
+				}
+				rw := httptest.NewRecorder()
+				rest.Update(rw, httptest.NewRequest(http.MethodPost, "/operations", bytes.NewReader(append([]byte{}, cr.Req...))))
+				if rw.Code != http.StatusOK {
+					e = fmt.Errorf("http %d: %s", rw.Code, rw.Body.String())
+				}
+			} else {
+				_, e = dh.ProcessOperation(cr.Req, vt)
+			}
 			ops[id] = opInfo{ver, suffixOf(cr.Req, ref.SHA256), false}
-			_, e := dh.ProcessOperation(cr.Req, vt)
 			if e != nil {
 				c.Violation(fmt.Sprintf("C16 (document handler in front) a valid create named by version time %d was refused: %v", vt, e), map[string]interface{}{"request": id})
 				return
